@@ -11,7 +11,7 @@ FUNCTIONS = [
     "batchie.models.main.predict_viability_all / ModelEvaluation.save_h5 / load_h5",
 ]
 BOUNDS = {
-    "quick": "holders of 1, 2, 3, 10, 11, 12, 101 and 257 samples ('10' < '2' and '100' < '11' matter), every parameter a symbolic float64 of tiny shape (float32 casts visible); both sample types, empty and non-empty single-effect table; three parameters of one sample ranging over every float class (finite, NaN, +inf, -inf, -0.0); 2 chains of lengths (3,2), (1,11), (11,1), (2,11), (1,1) and 3 chains (2,1,2), (11,2,1) in every file order",
+    "quick": "holders of 1, 2, 3, 10, 11, 12, 101 and 257 samples ('10' < '2' and '100' < '11' matter), every parameter a symbolic float64 of tiny shape (float32 casts visible); both sample types, empty and non-empty single-effect table; three parameters of one sample ranging over every float class (finite, NaN, +inf, -inf, -0.0); 2 chains of lengths (3,2), (1,11), (11,1), (2,11), (1,1) and 3 chains (2,1,2), (11,2,1) in every file order; a refused (empty) save onto an existing file",
     "thorough": "holders of every size 1..25 and of 101, 112, 256, 257, 300 and 1001 samples (three-digit keys: '100' < '11'), larger parameter shapes (3 samples x 3 treatments x 2 dimensions); every pair of chain lengths from {1,2,3,10,11,12}, every triple from {1,2,11}, 4, 5 and 6 chains; every file order",
 }
 ASSUMPTIONS = [
